@@ -402,9 +402,12 @@ class TraceImpl(Impl):
                 sk.run()
                 return "ran"
             return "built"
+        cwd = os.getcwd()
+        os.chdir(d)                     # whatever a logger writes with a relative path lands in the scratch directory
         try:
             return self._traced(fn)
         finally:
+            os.chdir(cwd)
             import shutil
             shutil.rmtree(d, ignore_errors=True)
 
